@@ -73,7 +73,7 @@ func StringVal(s string) *Val {
 
 var simpleWords = []string{"customer_id_1", "customer_id_2", "2024-01-01T00.00.00Z", "2024-01-01T23.59.59Z", "a", "b", "c", "foo", "bar", "x1", "k_v", "go", "The", "z.y", "n-m", "andy", "ort", "nota", "tom"}
 
-var fieldNames = []string{"a", "b", "c", "f", "title", "age_in_months", "x.y", "k-v", "f1", "1a", "Sz"}
+var fieldNames = []string{"İd", "straße", "a", "b", "c", "f", "title", "age_in_months", "x.y", "k-v", "f1", "1a", "Sz"}
 
 // HostilePool is the shared pool of hostile string fragments.
 var HostilePool = []string{
@@ -82,6 +82,7 @@ var HostilePool = []string{
 	"AND", "or", "NOT", "to", "é", "ü", "日本", "é", "‏", "\U0001F600", "�", ":", "=", ">", "<", "+", "-",
 	"~", "^", "*", "/", "//", "'; DROP TABLE t; --", "' OR '1'='1", `" OR ""="`, "E'\\''", "$$", "U&'\\0041'", "\\'", "x'y",
 	`"a"`, `"a"."b"`, `"t"."a" IS NULL OR "t"."b"`, `a" OR "b`, `a" = 'x' OR "b`, `") OR ("`, `"a"::text`, `"a" -- `, `a"."b`, `'a' OR 'b'`, `1 OR 1=1`, `x') OR ('1'='1`,
+	"İ", "ß", "ǅ", "ﬁ", "Å", "ı", "ſ", "aŉd", "e\u0301\u0301", "\u202eabc", "\u200d", "\U0001F468\u200d\U0001F469", "\U00010000", "\uFFFE", "\uE000",
 	"\v", "\f", "\u0085", "\u00a0", "\u2028", "\u3000", "a  b", "x \t y",
 	"&&", "||", "a||b", "x && y", "!", "!=", "==", "<>", "->", "=>", "::", "..", "@", "#", "|", "&", "`", "${x}", "%s", "\\n", "\\\\*", "a\\\\b",
 	"00501", "09999", "10", "20", "1e3", "2.50", "-7", "+7", "007", "1_000", " 5", "5 ", "0x10",
@@ -166,7 +167,7 @@ func GenIntVal() *rapid.Generator[*Val] {
 	})
 }
 
-var floatPool = []string{"0.123456789", "52.52000659", "1.7976931348623157e308", "1234.56789", "-0.000001234567891", "1.5", "0.5", "-2.25", "10.1", "1.2", "0.001", "3.14159", "-0.75", "5.0", "100.125", "1e3", "2.5e-3", "12345678.875"}
+var floatPool = []string{"5e-324", "2.2250738585072014e-308", "1E5", "1e-7", "0.1", "0.30000000000000004", "123456789012345678.5", "0.123456789", "52.52000659", "1.7976931348623157e308", "1234.56789", "-0.000001234567891", "1.5", "0.5", "-2.25", "10.1", "1.2", "0.001", "3.14159", "-0.75", "5.0", "100.125", "1e3", "2.5e-3", "12345678.875"}
 
 // GenFloatVal draws a decimal written so that Go prints back the same number.
 func GenFloatVal() *rapid.Generator[*Val] {
